@@ -40,7 +40,8 @@ CLAIM = dict(
     "keeps the stored relative times also for dated images), time_interval_keeps_stored_times. The relative time of a slab is what the parent "
     "stored (roots with dates AND independent stored times are covered), not a function of its date. Tie: differential correspondence on random programs (metadata + slab index lists, AND the whole pixel array entry by entry against np.arange-coded payloads) "
     "(exact, dyadic geometries) + oracle on the implementation tracing every voxel back to its root voxel.",
-    note="slices with a step other than 1 are outside the quantifier and not modelled (the code strides the data but derives dimensions from start/stop); Image.append compares dimensions/origin with "
+    note="dates are modelled as integer microseconds and relative times as the whole signed difference in seconds (secondsBetween); generators cover day spans, fractional (dyadic) seconds, "
+    "reference dates after the dates, and integer-typed dimensions / origins; slices with a step other than 1 are outside the quantifier and not modelled (the code strides the data but derives dimensions from start/stop); Image.append compares dimensions/origin with "
     "np.allclose and keeps the receiver's geometry (modelled with numpy's tolerance; appending an image whose geometry differs within 1e-5 relative is outside the quantifier and only counted); "
     "extents >= 1e5 voxels (where np.allclose cannot tell neighbouring integers apart) are not modelled; the model has value semantics: that stack() leaves the images passed in untouched and that extraction results do not alias their parent are checked by the oracle on the implementation; geometry on general (non-dyadic) floats is only covered by the oracle with a stated tolerance; Image.slice / reduce_axis are not part of C02; "
     "tuple-of-slices reaching beyond the image are clipped since the fix of Image.subregion (before: outside the property's quantifier).",
@@ -70,6 +71,26 @@ def has_times(r):
     return r["tkind"] in ("rel", "both")
 
 
+def time_increment(rng):
+    """Time between consecutive images, in seconds: whole seconds, fractions of a second (dyadic, exact as microseconds and as
+    floats) and spans of one or several days - relative times are the WHOLE signed difference (days, seconds, microseconds)."""
+    k = rng.random()
+    if k < 0.5:
+        return rng.randint(1, 30)
+    if k < 0.7:
+        return rng.randint(1, 120) / 4
+    if k < 0.9:
+        return 86400 * rng.randint(1, 3) + rng.randint(0, 7200)
+    return 86400 * rng.randint(1, 2) + rng.randint(1, 7) / 2
+
+
+def us(s_):
+    """seconds (int or dyadic float) -> integer microseconds, the unit of the model's dates"""
+    f = Fraction(s_) * 1000000
+    assert f.denominator == 1
+    return int(f)
+
+
 def gen_root(rng, rid, dim=None, series=None, shape=None, geom=None, tkind=None, vector=None, dyadic=True, tensor=False):
     dim = dim or rng.choice((2, 2, 3))
     cap = 6 if dim == 2 else 4
@@ -79,7 +100,18 @@ def gen_root(rng, rid, dim=None, series=None, shape=None, geom=None, tkind=None,
     T = rng.randint(1, 4) if series else 1
     vector = rng.random() < 0.3 if vector is None else vector
     if geom is None:
-        if dyadic:
+        if dyadic and rng.random() < 0.2:
+            # INTEGER-typed metadata (Python ints, as in Image(arr) with the default dimensions or dimensions=[3, 5], origin=[2, -1]):
+            # the voxel size dims/shape is in general not integral, so offsets start*h are fractional while origin arrays may be int-typed
+            # (voxel sizes stay dyadic - k/2^m with dims = h*shape integral - so that float arithmetic remains exact)
+            dims = []
+            for n_ in shape:
+                cands = [Fraction(k_, 2 ** m_) for k_ in (1, 3, 5, 7) for m_ in (2, 1, 0) if (Fraction(k_, 2 ** m_) * n_).denominator == 1]
+                frac_c = [h_ for h_ in cands if h_.denominator != 1]
+                h_ = rng.choice(frac_c) if frac_c and rng.random() < 0.8 else rng.choice(cands)
+                dims.append(int(h_ * n_))
+            origin = None if rng.random() < 0.6 else [rng.randint(-20, 20) for _ in range(dim)]
+        elif dyadic:
             h = [Fraction(rng.randint(1, 7), 2 ** rng.randint(0, 4)) for _ in range(dim)]
             dims = [float(h[p] * shape[p]) for p in range(dim)]
             origin = None if rng.random() < 0.4 else [float(Fraction(rng.randint(-80, 80), 4)) for _ in range(dim)]
@@ -89,7 +121,7 @@ def gen_root(rng, rid, dim=None, series=None, shape=None, geom=None, tkind=None,
         geom = (dims, origin)
     tkind = tkind or rng.choice(TKINDS)
     t0 = rng.randint(1, 50)
-    incs = [rng.randint(1, 30) for _ in range(T)]
+    incs = [time_increment(rng) for _ in range(T)]
     stamps = [t0 + sum(incs[:k]) for k in range(T)]
     return dict(rid=rid, dim=dim, shape=list(shape), dims=list(geom[0]), origin=geom[1], series=series, T=T, vector=bool(vector) and not tensor, tensor=bool(tensor),
                 tkind=tkind, stamps=stamps, dyadic=dyadic)
@@ -128,10 +160,10 @@ def build_root(d, r):
 def root_tokens(r, origin):
     cs = f"{r['dim']} {flist(r['shape'])} {flist(r['dims'])} {flist(origin)}"
     if has_times(r):
-        time = flist([Fraction(s, 4) for s in r["stamps"]])
+        time = flist([Fraction(s) / 4 for s in r["stamps"]])
     else:
         time = "none"
-    date = f"{r['T']} " + " ".join(str(s) if has_dates(r) else "none" for s in r["stamps"])
+    date = f"{r['T']} " + " ".join(str(us(s)) if has_dates(r) else "none" for s in r["stamps"])
     return f"{r['rid']} {cs} {int(r['series'])} {int(not (r['vector'] or r.get('tensor')))} {r['T']} {time} {date}"
 
 
@@ -140,7 +172,8 @@ def root_tokens(r, origin):
 
 
 def sec(x):
-    return None if x is None else int(round((x - EPOCH).total_seconds()))
+    """a datetime as the model sees it: integer microseconds since EPOCH (exact)"""
+    return None if x is None else (x - EPOCH) // timedelta(microseconds=1)
 
 
 def opt(x, f=str):
@@ -454,13 +487,14 @@ def stack_case(d, rng, n, tkind, dim, with_offsets, shared_ref=False):
     """Build n single-time images with a common geometry; stack (or append with offsets); slice again."""
     r0 = gen_root(rng, 0, dim=dim, series=False, tkind=tkind)
     if shared_ref and has_dates(r0):
-        r0["ref"] = rng.randint(-100, 10)
+        # the shared reference date may lie before, between or AFTER the dates (negative relative times), also days away
+        r0["ref"] = rng.choice([rng.randint(-100, 10), rng.randint(20, 60), 86400 * rng.randint(-2, 2) + rng.randint(0, 50), rng.randint(-40, 200) / 4])
     rs = []
     stamp = rng.randint(0, 20)
     for k in range(n):
         r = dict(r0)
         r["rid"] = k
-        stamp += rng.randint(1, 25)
+        stamp += time_increment(rng)
         r["stamps"] = [stamp]
         rs.append(r)
     # offsets: the falsy ones (0, 0.0) are legitimate offsets, not "no offset"
@@ -486,7 +520,7 @@ def stack_eval(d, rs, offs):
                 break
         line = None
         if n == 2 and rs[0].get("ref") is not None:
-            line = f"appendr {root_tokens(rs[0], origin)} {rs[0]['ref']} {root_tokens(rs[1], origin)} {rs[1]['ref']} {fmts([offs[0]])}"
+            line = f"appendr {root_tokens(rs[0], origin)} {us(rs[0]['ref'])} {root_tokens(rs[1], origin)} {us(rs[1]['ref'])} {fmts([offs[0]])}"
         elif n == 2:
             line = f"append {root_tokens(rs[0], origin)} {root_tokens(rs[1], origin)} {fmts([offs[0]])}"
     else:
@@ -496,7 +530,7 @@ def stack_eval(d, rs, offs):
         passed, ims = ims, twins
         res = call(d.stack, passed)
         if rs[0].get("ref") is not None:
-            line = f"stackr {n} " + " ".join(root_tokens(r, origin) + f" {r['ref']}" for r in rs)
+            line = f"stackr {n} " + " ".join(root_tokens(r, origin) + f" {us(r['ref'])}" for r in rs)
         else:
             line = f"stack {n} " + " ".join(root_tokens(r, origin) for r in rs)
         if not isinstance(res, Raised):
@@ -767,6 +801,12 @@ def run(ctx):
             continue
         line, final, root, toks, step_fails = out
         ctx.count(("program", line))
+        if r["tkind"] == "dates":
+            # an image built from dates alone: relative time = the WHOLE signed difference to the first date, in seconds
+            want_t = [float(Fraction(s_) - Fraction(r["stamps"][0])) for s_ in r["stamps"]]
+            if as_list(root.time, True) != want_t:
+                ctx.fail("C02:image-from-dates:relative-times", f"image constructed with dates at {r['stamps']} s: relative times {root.time}, required {want_t}",
+                         {"program": line, "root": r, "steps": [], "signature": "C02:image-from-dates:relative-times"})
         for sig, what in step_fails:
             ctx.fail(sig, f"{what}; program: {line}", {"program": line, "root": r, "steps": toks[1:], "signature": sig})
         bump(f"dim{r['dim']}:{'series' if r['series'] else 'single'}:{r['tkind']}:{'vector' if r['vector'] else 'scalar'}:{'dyadic' if dyadic else 'general'}")
@@ -932,6 +972,10 @@ def replay(data):
             wsel = call(expected_selection, tok, parent)
             if not isinstance(wsel, Raised) and (wsel.shape != im.img.shape or not np.array_equal(wsel, im.img)):
                 fails.append((f"C02:wrong-block-selected:{tok.split()[0]}", f"step `{tok}` returned data of shape {im.img.shape}, the denoted block has shape {wsel.shape}"))
+        if r["tkind"] == "dates":
+            want_t = [float(Fraction(s_) - Fraction(r["stamps"][0])) for s_ in r["stamps"]]
+            if as_list(root.time, True) != want_t:
+                fails.append(("C02:image-from-dates:relative-times", f"image constructed with dates at {r['stamps']} s: relative times {root.time}, required {want_t}"))
         if not isinstance(im, Raised):
             dyadic = r.get("dyadic", True)
             fails = fails + trace_check(d, root, r, im, dyadic) + physical_box_check(d, random.Random(0), im, dyadic, case.get("box"))
